@@ -144,6 +144,8 @@ func vor(a, b bool) bool                { return a || b }
 func vimplies(a, b bool) bool           { return !a || b }
 func vcutActive() bool                  { return false }
 func vrandPush(v uint32)                {}
+func vclockWithin(d int64)              {}
+func vclockFreeze()                     {}
 `
 	}
 	return "package " + pkg + `
@@ -247,6 +249,8 @@ func vor(a, b bool) bool      { return a || b }
 func vimplies(a, b bool) bool { return !a || b }
 func vcutActive() bool        { return false }
 func vrandPush(v uint32)      {}
+func vclockWithin(d int64)    {}
+func vclockFreeze()           {}
 func vparam(name string, def int) int {
 	vload()
 	if v, ok := vparams[name]; ok {
